@@ -38,6 +38,15 @@ CLAIMS = {
              'unit-relative form sets, reference formulas, unit header wiring, CompileUnit/TypeUnit agreement. Not decided: values '
              'fetched from other sections; round trip of arbitrary trees. Trusted: DWARF rows in spec/dwarf.py, cursor exceptions '
              'listed in sa/cursor.py.'),
+    'C07': dict(
+        technique='layout interpretation of every list-entry case struct + evaluation of the translation tables with output normal '
+                  'forms and field-membership + format-width rule + stream-cursor typestate with the generator/yield rule + '
+                  'analyser-evaluated attribute classification over the finite attribute x form x version domain',
+        level=LEVEL,
+        note='Decides: v5 headers and every DW_LLE/DW_RLE case layout, translator presence/field use/outputs, v4 parsers and '
+             'sentinels, offset/address table widths, enumeration formulas, H-CUR/H-YIELD of the list modules, classification on the '
+             'cells the standard defines (undefined cells are listed, not compared). Not decided: decoded values; the exact set of '
+             'lists visited for arbitrary DIE trees. Trusted: DWARF rows and class table in spec/dwarf.py and props/C07.py.'),
     'C08': dict(
         technique='layout interpretation vs glibc + r_info split evaluated against registry macros + recipe-table evaluation with '
                   'calc-function normal forms vs psABI rows + path-dominance of the apply-loop guards',
